@@ -94,7 +94,7 @@ def euler_case(draw):
          'cplx': draw(st.booleans()) if normalize != 1 else False,
          'tt_solver': draw(st.sampled_from(['als', 'als', 'mals'])) if len(dims) >= 2 else 'als',
          'micro_solver': draw(st.sampled_from(['solve', 'lu'])), 'repeats': draw(st.sampled_from([1, 1, 2])),
-         'x_rank': draw(st.integers(1, 3))}
+         'x_rank': draw(st.integers(1, 3)), 'x_scale_exp': draw(st.sampled_from([0, 0, 0, -9, 7]))}
     return c
 
 
@@ -114,6 +114,9 @@ def setup_euler(c):
     mr = dense.max_ranks(dims)
     xr = [1] + [min(c['x_rank'], mr[i]) for i in range(1, d)] + [1]
     x0 = rnd_tt(rng, dims, xr, c['cplx'], nonneg=markov)
+    if c.get('x_scale_exp', 0):
+        # the schemes are linear in the state: an initial value of norm 1e-9 or 1e7 must work like one of norm 1
+        x0.cores[0] = x0.cores[0] * 10.0 ** c['x_scale_exp']
     guess = rnd_tt(rng, dims, mr, c['cplx'], nonneg=markov)
     return rng, A, op, x0, guess
 
@@ -159,6 +162,8 @@ def body_euler(c):
         lab.add('order1')
     if c['cplx']:
         lab.add('complex')
+    if c.get('x_scale_exp', 0):
+        lab.add('rescaled_state')
     return lab
 
 
@@ -172,7 +177,8 @@ def hod_case(draw):
     normalize = draw(st.sampled_from([0, 1, 2]))
     return {'dims': dims, 'order': draw(st.sampled_from([2, 3, 4, 6])), 'normalize': normalize, 'seed': draw(gen.SEED),
             'h': draw(st.sampled_from([0.05, 0.1, 0.2, 0.4])), 'steps': draw(st.integers(1, 4)), 'previous': draw(st.booleans()),
-            'terms': draw(st.integers(1, 3)), 'cplx': draw(st.booleans()) if normalize != 1 else False, 'x_rank': draw(st.integers(1, 2))}
+            'terms': draw(st.integers(1, 3)), 'cplx': draw(st.booleans()) if normalize != 1 else False, 'x_rank': draw(st.integers(1, 2)),
+            'x_scale_exp': draw(st.sampled_from([0, 0, 0, -9, 7]))}
 
 
 def body_hod(c):
@@ -193,6 +199,12 @@ def body_hod(c):
     xr = [1] + [min(c['x_rank'], mr[i]) for i in range(1, d)] + [1]
     x0 = rnd_tt(rng, dims, xr, c['cplx'], nonneg=(p == 1))
     prev = rnd_tt(rng, dims, xr, c['cplx'], nonneg=(p == 1)) if c['previous'] else None
+    if c.get('x_scale_exp', 0) and p != 1:
+        # (not with the 1-norm normalisation: the scheme adds the normalised previous state to M x0 whose entries sum to zero
+        # for a Markov generator, so dividing by the sum of an un-normalised x0 of size 1e7 is ill-conditioned in itself)
+        x0.cores[0] = x0.cores[0] * 10.0 ** c['x_scale_exp']
+        if prev is not None:
+            prev.cores[0] = prev.cores[0] * 10.0 ** c['x_scale_exp']
     snaps = [(t, build.snapshot(t)) for t in (op, x0)]
     order = c['order'] + (c['order'] % 2)
     kw = dict(order=c['order'], normalize=p, progress=False)
@@ -238,6 +250,8 @@ def body_hod(c):
         lab.add('complex')
     if d == 1:
         lab.add('order1')
+    if c.get('x_scale_exp', 0) and p != 1:
+        lab.add('rescaled_state')
     return lab
 
 
